@@ -17,7 +17,7 @@ set_option linter.unusedVariables false
 set_option linter.unusedSimpArgs false
 
 namespace Pandora.Proofs.C01R6Wait
-open Pandora Pandora.Gen.Schedule Pandora.Bridge.C01 Pandora.Model.C04 Pandora.Proofs.C04
+open Pandora Pandora.Gen.Schedule Pandora.Bridge.C01 Pandora.Model.C04 Pandora.Proofs.C04 Pandora.Go.C04
 
 /-- The passes of the loop of `instance.Run` as the Waiter sees them when its schedule is the regenerated leaf in state
 `s`: from each record of the history only what the WORLD decides is kept (context done at the loop head — read from
@@ -50,7 +50,7 @@ def evToks (evs : List Ev) : List ℤ := evs.filterMap (fun ev => ev.iter.env.to
 
 /-- the instants of operations m, m+1, …, n−1 of a leaf started at `t0` -/
 def profToks (n : ℤ) (f : ℤ → ℤ) (t0 : ℤ) (m : ℕ) : List ℤ :=
-  (List.range' m (n.toNat - m)).map (fun k => t0 + f (k : ℤ))
+  (List.range' m (n.toNat - m)).map (fun (k : ℕ) => t0 + f (k : ℤ))
 
 theorem profToks_cons (n : ℤ) (f : ℤ → ℤ) (t0 : ℤ) (m : ℕ) (h : (m : ℤ) < n) :
     profToks n f t0 m = (t0 + f (m : ℤ)) :: profToks n f t0 (m + 1) := by
@@ -138,7 +138,7 @@ theorem feed_started (d : Bool) (D n : ℤ) (f : ℤ → ℤ) (t0 : ℤ) : ∀ (
           · simp only [hk]
             simp only [Bool.not_true, Bool.false_eq_true, if_false]
             rw [evToks_cons_some _ _ (t0 + f (m : ℤ)) (by split <;> simp [Ev.iter])]
-            exact List.Sublist.cons₂ _ (hsub _)
+            exact List.Sublist.cons_cons _ (hsub _)
           · simp only [hk]
             simp only [Bool.not_false, if_true]
             exact List.Sublist.cons _ (hsub _)
